@@ -104,12 +104,12 @@ class QueryParserFuzzy(BaseQueryParser):
                            'Search': ['Stimulus', 'Contrast']}
         """
         self.q_dict = {}
-        find_pattern = re.compile("FIND(.*?)HAVING")
+        find_pattern = re.compile("FIND(.*?)HAVING", re.DOTALL)
         find_group = re.search(find_pattern, q_str).group(1).strip()
         if find_group:
             self._parse_find(find_group)
 
-        having_pattern = re.compile("HAVING(.*)")
+        having_pattern = re.compile("HAVING(.*)", re.DOTALL)
         having_group = re.search(having_pattern, q_str).group(1).strip()
         if having_group:
             if "Search" in self.q_dict.keys():
@@ -130,17 +130,17 @@ class QueryParserFuzzy(BaseQueryParser):
                           objects like document(doc), sections(sec) or properties(prop).
                           e.g. 'sec(name, type) prop(name)'
         """
-        doc_pattern = re.compile("(doc|document)[(].*?[)]")
+        doc_pattern = re.compile("(doc|document)[(].*?[)]", re.DOTALL)
         doc = re.search(doc_pattern, find_part)
         if doc:
             self._parse_doc(doc)
 
-        sec_pattern = re.compile("(sec|section)[(].*?[)]")
+        sec_pattern = re.compile("(sec|section)[(].*?[)]", re.DOTALL)
         sec = re.search(sec_pattern, find_part)
         if sec:
             self._parse_sec(sec)
 
-        prop_pattern = re.compile("(prop|property)[(].*?[)]")
+        prop_pattern = re.compile("(prop|property)[(].*?[)]", re.DOTALL)
         prop = re.search(prop_pattern, find_part)
         if prop:
             self._parse_prop(prop)
@@ -174,7 +174,7 @@ class QueryParserFuzzy(BaseQueryParser):
                       will be ignored.
         """
         search_values_list = []
-        search_params = re.compile("(.*?)(?:,|$)")
+        search_params = re.compile("(.*?)(?:,|$)", re.DOTALL)
         if having_part:
             search_values = re.findall(search_params, having_part)
             for val in search_values:
@@ -202,17 +202,17 @@ class QueryParser(BaseQueryParser):
                            'Prop': [('name', 'Contrast'), ('value':[20]), ('unit':'%')]}
         """
         self.q_dict = {}
-        doc_pattern = re.compile("(doc|document)[(].*?[)]")
+        doc_pattern = re.compile("(doc|document)[(].*?[)]", re.DOTALL)
         doc = re.search(doc_pattern, q_str)
         if doc:
             self._parse_doc(doc)
 
-        sec_pattern = re.compile("(sec|section)[(].*?[)]")
+        sec_pattern = re.compile("(sec|section)[(].*?[)]", re.DOTALL)
         sec = re.search(sec_pattern, q_str)
         if sec:
             self._parse_sec(sec)
 
-        prop_pattern = re.compile("(prop|property)[(].*?[)]")
+        prop_pattern = re.compile("(prop|property)[(].*?[)]", re.DOTALL)
         prop = re.search(prop_pattern, q_str)
         if prop:
             self._parse_prop(prop)
@@ -222,25 +222,25 @@ class QueryParser(BaseQueryParser):
     def _parse_doc(self, doc):
         attr_list = "id|author|date|version|repository|sections"
         pattern = "[, (](%s):(.*?)[,)]" % attr_list
-        re_obj = re.compile(pattern)
+        re_obj = re.compile(pattern, re.DOTALL)
         if doc:
             self.q_dict["Doc"] = re.findall(re_obj, doc.group(0))
 
     def _parse_sec(self, sec):
         attr_list = "id|name|definition|type|repository|reference|sections|properties"
         pattern = "[, (](%s):(.*?)[,)]" % attr_list
-        re_obj = re.compile(pattern)
+        re_obj = re.compile(pattern, re.DOTALL)
         if sec:
             self.q_dict["Sec"] = re.findall(re_obj, sec.group(0))
 
     def _parse_prop(self, prop):
         attr_list = "id|name|definition|dtype|unit|uncertainty|reference|value_origin"
         pattern = "[, (](%s):(.*?)[,)]" % attr_list
-        re_obj = re.compile(pattern)
+        re_obj = re.compile(pattern, re.DOTALL)
         if prop:
             self.q_dict["Prop"] = re.findall(re_obj, prop.group(0))
 
-            p_value = re.compile(r"value:\[(.*)]")
+            p_value = re.compile(r"value:\[(.*)]", re.DOTALL)
 
             value_group = re.findall(p_value, prop.group(0))
             if value_group:
